@@ -12,7 +12,7 @@ func init() { register("C02", "other", c02) }
 func c02(c *Ctx) {
 	r := c.R
 	r.Explanation = "Thin structural necessary conditions of 'NextData delivers exactly the carried units', each decided on go/ssa for ALL inputs: " +
-		"(R1) drain before end: every return of (*Demuxer).NextData whose error can be ErrNoMorePackets is dominated by the edge len(dumpUnlocked()) == 0, and inside the drain loop parseData(dump) lies on every path from the non-empty edge to a return or to the next dump. " +
+		"(R1) drain before end: every return of (*Demuxer).NextData whose error can be ErrNoMorePackets is reached with it only over an edge on which the pool has just been found empty — the edge len(dumpUnlocked()) == 0, or the nil edge of the result of a helper that returns nil only behind such an edge (merged returns are judged per incoming edge) — and in every function that calls dumpUnlocked, parseData(dump) lies on every path from the non-empty edge to a return or to the next dump. " +
 		"(R2) buffered sections first, none dropped: the len(dmx.dataBuffer) test dominates every NextPacket/addUnlocked/dumpUnlocked call; its non-empty edge returns dataBuffer[0] and stores dataBuffer[1:]; in updateData the only store to dataBuffer is append(dataBuffer, ds[1:]...) on paths that return ds[0]; only NextData/updateData/Rewind store to the field. " +
 		"(R3/S6) the accumulator queue is append-only: every value stored to packetAccumulator.q anywhere in the package is built from the loaded q, x[:0], make(…,0,…), nil and append(<one of these>, p) with p the arriving packet, no element of q is overwritten, add returns nil or a whole queue value, and on the PayloadUnitStartIndicator-true edge the returned group is the pre-append queue while p goes to a fresh make(…,0,…). " +
 		"(R4) no read-ahead: on all paths from a non-empty addUnlocked/dumpUnlocked result to the return of its data no call can reach an io.Reader/io.Seeker (transitive closure over static calls and function values of the package); parseData/updateData are outside that closure; add evaluates isPSIComplete on append(queue, p) and its true edge returns that queue and stores nil. " +
